@@ -12,7 +12,7 @@ git -C /repo diff HEAD | git -C "$D/repo" apply --allow-empty 2>/dev/null
 if [ $MODE = revert ]; then git -C "$D/repo" show "$WHAT" | git -C "$D/repo" apply -R || { echo "revert failed"; }
 else git -C "$D/repo" apply "$WHAT" || echo "patch failed"; fi
 cd /verif
-HX_REPO="$D/repo" HX_NOEVIDENCE=1 HX_REPLAY_DIR="$D/replays" /venv/bin/python -m hx "$PID" "$@"
+HX_REPO="$D/repo" HX_NOEVIDENCE=1 HX_FAILFAST=1 HX_REPLAY_DIR="$D/replays" /venv/bin/python -m hx "$PID" "$@"
 RC=$?
 echo "exit=$RC"
 git -C /repo worktree remove --force "$D/repo"; rm -rf "$D"
